@@ -75,6 +75,81 @@ check("C12", "exploration",
       "DESIGN.md section 3 C12")
 
 
+check("C02", "exploration",
+      "Consistent value trees (from lazy parses of the reference model: boundary ints, empty/maximal lists, absent optionals, nested "
+      "packets) are built into real packets three ways (keywords, attribute assignment, mixed) in generic and generated variants; a "
+      "reference encoder decides the packed bytes, a shadowing Fragments records the insert trace (each byte once, in order, at the "
+      "model's position), and the re-parse must give equal values, end where the model ends, and assert_consistency() True.",
+      "Trusts model.encode as the meaning of 'in-order concatenation at declared positions'. Raw-inspecting callbacks and regex "
+      "delimiters not kept are excluded (known finding F2 exhibited by a deterministic probe).",
+      "runtime monitoring: reference encoder oracle + insert-trace monitor on pack->unpack executions",
+      "DESIGN.md section 3 C02")
+
+check("C03", "exploration",
+      "The same generated declaration is defined under 5 (quick) / all 16 (thorough) combinations of the four code-generation options "
+      "and every variant is executed in lock-step with the all-generic variant on valid, truncated, corrupted and random inputs and on "
+      "well-typed and ill-typed value trees: outcome class, field values, end offset and packed bytes must coincide. Generated struct "
+      "formats seen are recorded.",
+      "The all-generic variant of the real library is the reference (as the property states). Wrong-length Data(n) values are out of domain.",
+      "runtime monitoring: lock-step differential execution of code-generation variants of the real library",
+      "DESIGN.md section 3 C03")
+
+check("C05", "exploration",
+      "Arithmetic oracle (no struct/int.from_bytes) over 260 (quick) / 1242 (thorough) Int configurations (width x signedness x 5 "
+      "endianness spellings x class default) in three layouts and three code-generation option sets: all 256 patterns for n=1, all "
+      "65536 for n=2 in thorough (exhaustive), byte-lane sweeps over four backgrounds and boundaries above; every representable value "
+      "packs back; out-of-range and non-integers must raise PacketError; truncations must not decode.",
+      "Trusts the arithmetic definition of two's complement in c05.py (decode and encode cross-checked against each other on every pattern).",
+      "runtime monitoring: arithmetic oracle over enumerated configurations and byte patterns",
+      "DESIGN.md section 3 C05")
+
+check("C07", "exploration",
+      "All 128 compositions of 8 bits x all 256 patterns (exhaustive), all 32768 compositions of 16 bits in thorough, sampled "
+      "compositions of 16..128 bits, runs embedded between other fields, two runs per class, three option sets: unpack, pack of in-range, "
+      "out-of-range, negative and huge per-field values, repeated pack, round trips, truncations; non-multiple-of-8 runs must be rejected "
+      "with ByteBoundaryError at class definition.",
+      "Trusts the integer-arithmetic model of a big-endian MSB-first shared integer written from the statement.",
+      "runtime monitoring: arithmetic oracle over enumerated bit-width compositions",
+      "DESIGN.md section 3 C07")
+
+check("C08", "exploration",
+      "Structure-heavy generated declarations run under the field recorder with the count/until/when callables wrapped: element events "
+      "== list length == max(count,0); until evaluated exactly once per element seeing a list one longer, stopping at the first true; "
+      "false when => no events, no cursor movement; optional parsed iff its condition; cursor continuity across nested packets; plus "
+      "values and end offset against the reference model for valid, truncated and corrupted inputs, generic and generated variants.",
+      "Trusts the recorder/control wrappers as observations and the reference model as the declared semantics; evaluation order of count vs when is not judged.",
+      "runtime monitoring: control-callable and field-event monitors with trace invariants + reference-model oracle",
+      "DESIGN.md section 3 C08")
+
+check("C10", "exploration",
+      "The same packet is observed while parsed and while serialized: both event trees must have the same shape and every field and "
+      "Move pseudo-field must begin/end at the same relative position (bit runs compared as a whole); alignment arithmetic (least "
+      "advance < alignment, multiple relative to the reference) and at/shift targets are checked model-free for constant arguments and "
+      "against the reference model for field/callable targets; skipped bytes must be '.'. Positioning-heavy declarations, three "
+      "references, class align, repeated(aligned=), nesting, several start offsets.",
+      "Trusts wrapper entry/exit cursors as read/write positions. Negative cursors/alignments are undefined and skipped; overlapping trees are C01's.",
+      "runtime monitoring: paired parse/serialize event-tree comparison + Move arithmetic monitor",
+      "DESIGN.md section 3 C10")
+
+check("C14", "exploration",
+      "Metamorphic relation executed on the real library: unpack(pre+raw+post, len(pre)) vs unpack(raw) for hostile pre/post (delimiters, "
+      "copies of raw, 0xff runs): equal values, end offset shifted by len(pre); failing inputs fail identically with every fields_stack "
+      "offset shifted. Declarations are the generator's minus those the statement excludes.",
+      "Model-free. The parsed region is [offset, highest cursor reached); post is omitted for read-to-end fields and lengthenable regex delimiters.",
+      "runtime monitoring: metamorphic oracle (padding invariance) over generated declarations",
+      "DESIGN.md section 3 C14")
+
+check("C17", "exploration",
+      "A three-variable state machine (explicit flag, explicit value, tracked value) is the model; every operation history up to length "
+      "4 (quick) / 6 (thorough) over {set tracked x2, set described x2, delete, read, pack} from 8-9 start states (constructor forms and "
+      "unpack) is executed on 12 real classes (AutoLength / Auto, alone and inside a vectorised run, repeated tracked field; three option "
+      "sets) and compared after the operations: attribute reads, pack bytes (reference encoding by int.to_bytes), pack purity, no __dict__; "
+      "two-packet histories check the flag is per instance. Exhaustive for the stated bound.",
+      "Trusts the state machine in c17.py as the meaning of the statement; bounded-exhaustive, not a proof beyond the bound.",
+      "runtime monitoring: exhaustive bounded operation histories against an executable state-machine model",
+      "DESIGN.md section 3 C17")
+
+
 def build():
     import glob
     props = []
